@@ -608,3 +608,58 @@ def check_stale_flow(facts, rep, module_filter, label, floor_sites=1):
         if not any(v.startswith(key + '|') for v in seen_v):
             rep.ok('E5.L6-no-stale-write', '%s|no value crosses from one critical section into a write of another' % key, 'checked')
     rep.floor('E5.L6 calls made through a lock guard (%s)' % label, n_sections, floor_sites)
+
+
+def check_validation_predicate(facts, rep):
+    """L7: the re-validation under the write lock (RowWorker::update_diff) re-examines *every* pivot committed since the
+    snapshot whose column carries *any* mark of this worker: for k in loc.count()..pivots.count(), j = pivots.indices[k],
+    the column is enqueued (=> should_retry) unless both is_candidate(j) and is_occupied(j) were tested false. A predicate
+    narrowed by further state (e.g. "only if the search visited a pivot row") forgets the marks that init() puts on the
+    row's own non-unit entries, lets two workers commit mutually cyclic pivots, and top_sort panics."""
+    from symex import SymEx, show
+    fn = [b for k, b in facts.bodies.items() if k.endswith('sparse::pivot::RowWorker::update_diff')]
+    if len(fn) != 1:
+        rep.indet('E5.L7: RowWorker::update_diff not found')
+        return
+    b = fn[0]
+    rep.saw(b)
+
+    def dk(t):
+        return re.sub(r'&mut _\d+', 'IT', re.sub(r'#\d+\.\d+', '', show(t, -1000))).replace('&', '').replace('*', '')
+    J = 'index(arg3.indices, next(IT).Some.0)'
+    rng = set()
+    n_loop = 0
+    probs = []
+    for p in SymEx(b, havoc_loops=True, max_paths=20000).run():
+        for e in p.calls():
+            if e.name.endswith('into_iter') and e.args:
+                rng.add(dk(e.args[0]))
+        conds = [(dk(e.term), e.value != 0) for e in p.branches()]
+        if ('discr(next(IT))', True) not in conds or p.end != 'backedge':
+            continue
+        n_loop += 1
+        enq = [dk(e.args[1]) for e in p.calls() if e.name.split('::')[-1] == 'enqueue' and len(e.args) == 2]
+        occ = [dk(e.args[1]) for e in p.calls() if e.name.split('::')[-1] == 'set_occupied' and len(e.args) == 2]
+        cand = dict((t, v) for t, v in conds).get('is_candidate(arg1, %s)' % J)
+        occd = dict((t, v) for t, v in conds).get('is_occupied(arg1, %s)' % J)
+        if enq:
+            if enq != [J] or occ != [J]:
+                probs.append('a re-examined column is handled as enqueue(%s) / set_occupied(%s)' % (enq, occ))
+            if not (cand is True or occd is True):
+                probs.append('a column is enqueued without carrying a mark')
+        else:
+            if not (cand is False and occd is False):
+                extra = [t for t, v in conds if not t.startswith(('discr(next', 'is_candidate(', 'is_occupied(', 'Lt(', 'Le(')) and 'Overflow' not in t]
+                probs.append('a newly committed pivot column is skipped although %s was not tested false (other conditions on the path: %s)' %
+                             ('is_occupied(j)' if occd is None else 'is_candidate(j)' if cand is None else 'a mark', extra[:2]))
+    inst = 'RowWorker::update_diff|every newly committed pivot column that carries a mark is re-examined'
+    want_rng = 'Range::Range{start: count(arg2), end: count(arg3)}'
+    if rng != {want_rng}:
+        rep.indet('E5.L7: update_diff scans %s' % sorted(rng))
+    elif n_loop < 2:
+        rep.indet('E5.L7: update_diff has %d loop paths' % n_loop)
+    elif probs:
+        rep.violation('E5.L7-validation-covers-all-marks', inst, 'RowWorker::update_diff: ' + '; '.join(sorted(set(probs))[:2]) +
+                      ' - the validation under the write lock misses a conflict and two workers can commit mutually cyclic pivots', where=b.where())
+    else:
+        rep.ok('E5.L7-validation-covers-all-marks', inst, 'enqueue iff is_candidate(j) || is_occupied(j), for k in loc.count()..pivots.count()')
